@@ -304,6 +304,7 @@ func (x *Exec) realmConfig(rc *realmCtx) *router.RealmConfig {
 		AnonymousAuth:     ac.Anon,
 		AllowDisclose:     rc.cfg.Disclose,
 		EnableMetaKill:    rc.cfg.Metakill,
+		EnableMetaModify:  true,
 		Authenticators:    auths,
 		RequireLocalAuth:  ac.Lauth,
 		RequireLocalAuthz: rc.cfg.Lauthz,
@@ -1561,11 +1562,18 @@ func (x *Exec) abstractEvent(p *peer, m *wamp.Event, t int) Msg {
 		}
 	case "wamp.session.on_leave":
 		r.X = x.sessID(arg(0))
-		aid := str(arg(1))
+		// (a detail deleted through wamp.session.modify_details is announced as null: no value)
+		orEmpty := func(v any) string {
+			if v == nil {
+				return ""
+			}
+			return str(v)
+		}
+		aid := orEmpty(arg(1))
 		if x.randomAuthid(aid) {
 			aid = "RANDOM"
 		}
-		r.Pd = sortPairs([][2]string{{"authid", aid}, {"authrole", str(arg(2))}})
+		r.Pd = sortPairs([][2]string{{"authid", aid}, {"authrole", orEmpty(arg(2))}})
 	case "wamp.subscription.on_create", "wamp.registration.on_create":
 		r.X = x.sessID(arg(0))
 		if det, ok := wamp.AsDict(arg(1)); ok && det != nil {
@@ -1716,6 +1724,16 @@ func (x *Exec) metaArgs(in Input) (wamp.List, wamp.Dict) {
 		return wamp.List{x.sessC.raw(in.ID)}, nil
 	case "wamp.session.kill":
 		return wamp.List{x.sessC.raw(in.ID)}, kill()
+	case "wamp.session.modify_details":
+		// args = key, value ("" = delete the key); fewer = a malformed request
+		if len(in.Args) < 2 {
+			return wamp.List{x.sessC.raw(in.ID)}, nil
+		}
+		var v any
+		if in.Args[1] != "" {
+			v = in.Args[1]
+		}
+		return wamp.List{x.sessC.raw(in.ID), wamp.Dict{in.Args[0]: v}}, nil
 	case "wamp.session.kill_by_authid", "wamp.session.kill_by_authrole":
 		return strs(), kill()
 	case "wamp.session.kill_all":
@@ -2001,8 +2019,10 @@ func poisonParts(d wamp.Dict, a wamp.List, kw wamp.Dict) {
 type tableAuthorizer struct{ rules []Rule }
 
 func (t *tableAuthorizer) Authorize(sess *wamp.Session, msg wamp.Message) (bool, error) {
+	sess.Lock()
 	role, _ := wamp.AsString(sess.Details["authrole"])
 	method, _ := wamp.AsString(sess.Details["authmethod"])
+	sess.Unlock()
 	local := method == "local"
 	mt := msg.MessageType().String()
 	for _, r := range t.rules {
